@@ -142,6 +142,20 @@ type appCLI struct {
 	Commands    []*cli.Command
 }
 
+// parseFlags parses the arguments of a command. The first word that isn't a
+// flag ends flag parsing (package flag), and no command takes such words:
+// instead of dropping it along with every flag that follows it
+// ("generate out --folder x" wrote into the working directory), it's an error.
+func parseFlags(set *flag.FlagSet, args []string) error {
+	if err := set.Parse(args); err != nil {
+		return err
+	}
+	if set.NArg() > 0 {
+		return fmt.Errorf("%s: unexpected argument %q", set.Name(), set.Arg(0))
+	}
+	return nil
+}
+
 func (a App) Generate(outputPath string) error {
 	for _, name := range a.graphInstance.ProducerNames() {
 		fp := path.Join(outputPath, name)
@@ -202,7 +216,7 @@ func (a *App) Run(args []string) error {
 				authorFlag := newCmd.String("author", "", "author of the program")
 				outFlag := newCmd.String("out", "", "Optional path to file to write content to")
 
-				if err := newCmd.Parse(state.Args); err != nil {
+				if err := parseFlags(newCmd, state.Args); err != nil {
 					return err
 				}
 
@@ -252,7 +266,7 @@ func (a *App) Run(args []string) error {
 				generateCmd := flag.NewFlagSet("generate", flag.ExitOnError)
 				a.initialize(generateCmd)
 				folderFlag := generateCmd.String("folder", ".", "folder to save generated contents to")
-				if err := generateCmd.Parse(appState.Args); err != nil {
+				if err := parseFlags(generateCmd, appState.Args); err != nil {
 					return err
 				}
 				return a.Generate(*folderFlag)
@@ -300,7 +314,7 @@ func (a *App) Run(args []string) error {
 					"Time allowed to write a message to the peer over a websocketed connection.",
 				)
 
-				if err := editCmd.Parse(appState.Args); err != nil {
+				if err := parseFlags(editCmd, appState.Args); err != nil {
 					return err
 				}
 
@@ -336,7 +350,7 @@ func (a *App) Run(args []string) error {
 				outlineCmd := flag.NewFlagSet("outline", flag.ExitOnError)
 				a.initialize(outlineCmd)
 
-				if err := outlineCmd.Parse(appState.Args); err != nil {
+				if err := parseFlags(outlineCmd, appState.Args); err != nil {
 					return err
 				}
 
@@ -371,7 +385,7 @@ func (a *App) Run(args []string) error {
 				a.initialize(zipCmd)
 				fileFlag := zipCmd.String("out", "", "file to write the contents of the zip too")
 
-				if err := zipCmd.Parse(appState.Args); err != nil {
+				if err := parseFlags(zipCmd, appState.Args); err != nil {
 					return err
 				}
 
@@ -398,7 +412,7 @@ func (a *App) Run(args []string) error {
 				a.initialize(mermaidCmd)
 				fileFlag := mermaidCmd.String("out", "", "Optional path to file to write content to")
 
-				if err := mermaidCmd.Parse(appState.Args); err != nil {
+				if err := parseFlags(mermaidCmd, appState.Args); err != nil {
 					return err
 				}
 
@@ -425,7 +439,7 @@ func (a *App) Run(args []string) error {
 				a.initialize(swaggerCmd)
 				fileFlag := swaggerCmd.String("out", "", "Optional path to file to write content to")
 
-				if err := swaggerCmd.Parse(appState.Args); err != nil {
+				if err := parseFlags(swaggerCmd, appState.Args); err != nil {
 					return err
 				}
 
